@@ -18,6 +18,17 @@ var vTables = []struct{ ns, table, fq string }{
 	{"", "t", "t"},
 	{"", "tt", "tt"},
 	{"n", "t", "n:t"},
+	{"", "n_t", "n_t"}, // same length as "n:t", differs only where the namespace separator is
+}
+
+// vTableSel: which of vTables the first tables of a job are (default: in order).
+var vTableSel []int
+
+func vTableAt(i int) int {
+	if i < len(vTableSel) {
+		return vTableSel[i]
+	}
+	return i
 }
 
 // vMkRegion builds a region of table #ti with a one-digit id and the given range.
@@ -48,6 +59,7 @@ func vSymRegion() (hrpc.RegionInfo, int) {
 	if vNamespaced && ti == 1 {
 		ti = 2 // tables "t" and "n:t": the same bare table name in two namespaces
 	}
+	ti = vTableAt(ti)
 	start := verifBytes(verifParam("KL"))
 	stop := verifBytes(verifParam("KL"))
 	id := verifInt(1, 9)
